@@ -193,6 +193,11 @@ RowVal(r, v) == LET I == { k \in 1 .. Len(r) : r[k][1] = v } IN IF I = {} THEN 0
 RowTolEq(r1, r2) ==
   \A v \in { r1[k][1] : k \in 1 .. Len(r1) } \cup { r2[k][1] : k \in 1 .. Len(r2) } : RowTolClose(RowVal(r1, v), RowVal(r2, v))
 
+\* the same comparison with a relative tolerance of 2^-5 (known finding C04-tof-zindex: the TOF kernel factor moves by < 1 %)
+RowLooseEq(r1, r2) ==
+  \A v \in { r1[k][1] : k \in 1 .. Len(r1) } \cup { r2[k][1] : k \in 1 .. Len(r2) } :
+    Abs(RowVal(r1, v) - RowVal(r2, v)) <= RowAbsTol + Max2(Abs(RowVal(r1, v)), Abs(RowVal(r2, v))) \div 32
+
 \* value of a bin after forward projecting the integer image x (a sequence indexed by voxel index + 1) through the
 \* recorded row, in fixed point; SparseAbs bounds the quantisation of the row entries (1/2 unit each, times |x|)
 RECURSIVE SparseDotTo(_, _, _), SparseAbsTo(_, _, _), SparseMagTo(_, _, _)
